@@ -220,7 +220,11 @@ def run(A, R: Report, thorough: bool):
     else:
         g = apo_dicts[0][5]
         gtxt = pretty(g) if g is not None else ''
-        skips = {'ignored names': 'NotIn' in gtxt or 'not in' in gtxt.lower(), 'IgnoreForPersistence values': 'IgnoreForPersistence' in gtxt, 'default-valued args': '.default' in gtxt}
+        fv0 = K.f_apo.cls.lookup('ignore_persistence_args')
+        ign_t = A.sym.func_term(fv0, ('cls', K.f_apo.cls)) if fv0 is not None and (fv0.is_classmethod if hasattr(fv0, 'is_classmethod') else False) else (A.sym.func_term(fv0, ('inst', K.f_apo.cls)) if fv0 is not None else None)
+        gnodes = dag_nodes(g) if g is not None else []
+        ignored = any(x[0] == 'cmp' and x[1] in ('NotIn', 'In') and (x[3] == ign_t or (x[3][0] in ('ref', 'method', 'call') and 'ignore_persistence_args' in str(x[3]))) for x in gnodes)
+        skips = {'ignored names': ignored, 'IgnoreForPersistence values': 'IgnoreForPersistence' in gtxt, 'default-valued args': '.default' in gtxt}
         missing = [k for k, v in skips.items() if not v]
         R.check(not missing, 'R02.4', 'AutoParameterObject.repr', key_of('apo-skips', missing), 'ignored / IgnoreForPersistence / default-valued arguments skipped', f'AutoParameterObject.repr no longer skips {missing}', where=where(K.f_apo))
     fv = K.f_apo.cls.lookup('ignore_persistence_args')
